@@ -11,7 +11,8 @@ CONSTANTS LabelAlpha,   \* code points of the labels to encode
           MaxLabel,     \* their maximal length
           PayAlpha,     \* code points of the strings to decode
           MaxPay,       \* their maximal length
-          LongAlpha,    \* digits of the longer strings to decode (overflow, code point range)
+          LongPre,      \* the longer strings to decode (overflow tests, code point range): this many
+          LongAlpha,    \* '9' digits followed by LongMin..LongMax digits over LongAlpha
           LongMin, LongMax,
           Reps,         \* numbers of leading basic code points of the long labels
           BigCPs,       \* their single non-basic code point
@@ -41,7 +42,7 @@ SeqsUpTo(A, n)  == UNION {SeqsOfLen(A, k) : k \in 0..n}
 Cases ==
     [k : {"enc"}, u : SeqsUpTo(LabelAlpha, MaxLabel)]
     \cup [k : {"dec"}, a : SeqsUpTo(PayAlpha, MaxPay)]
-    \cup [k : {"dec"}, a : UNION {SeqsOfLen(LongAlpha, n) : n \in LongMin..LongMax}]
+    \cup [k : {"dec"}, a : {[i \in 1..LongPre |-> 57] \o t : t \in UNION {SeqsOfLen(LongAlpha, n) : n \in LongMin..LongMax}}]
     \cup [k : {"dec"}, a : EdgePays]
     \cup [k : {"encl"}, rep : Reps, cp : BigCPs]
     \cup [k : {"law"}, x : {Join(ls) : ls \in UNION {SeqsOfLen(LawLabels, n) : n \in 1..MaxLawLabels}}]
